@@ -37,6 +37,29 @@ func (ex *Exec) guardCheckSlow(st *State, fr *Frame, p PtrVal, write bool) {
 	}
 }
 
+// guardCheckMap: operations on a map that is the value of a guarded field (declared with vhGuarded while the field
+// held that map) need the field's guard: the field load may happen under the lock and the iteration outside it.
+func (ex *Exec) guardCheckMap(st *State, fr *Frame, m MapVal, write bool) {
+	if st.guards == nil || !st.guardOn || m.Obj == 0 {
+		return
+	}
+	g, ok := st.guards[fmt.Sprintf("map:%d", m.Obj)]
+	if !ok {
+		return
+	}
+	name := ex.prog.funcName(fr.fn)
+	if strings.Contains(name, ".VH_") || strings.Contains(name, ".vh") || !strings.Contains(name, repoPath) {
+		return
+	}
+	if !st.lockset[g.mu] {
+		op := "read"
+		if write {
+			op = "written"
+		}
+		ex.guardViolation(st, fr, g.name, "map "+op+" without holding its guard")
+	}
+}
+
 func rw(write bool) string {
 	if write {
 		return "store"
